@@ -134,6 +134,11 @@ def add_only_merge(ctx, F, fn, what_merge, rule="R-WHO"):
 def run(ctx):
     F = ctx.facts("default")
     cfm_agreement(ctx, F)
+    # "the right password opens it": authentication goes through the revision-specific algorithms, which the general
+    # methods of PasswordAlgorithm must select for exactly the revisions they are defined for (shared with C06)
+    import prop_c06
+    prop_c06.revision_dispatch(ctx, F)
+    prop_c06.password_truncation(ctx, F)
     ca, ka = sibling(ctx, F, "encryption::encrypt_object", "encryption::decrypt_object", "object")
     ctx.floor("R-SIB", "byte constants of encrypt_object", len(ka), 4)
     for t in (b"XRef", b"Crypt", b"DecodeParms"):
